@@ -116,9 +116,10 @@ def gen_names(rng, n, size, taken, allow_unnamed, style):
 def predicted_counts(req):
     """object counts after the driver added its helpers"""
     nb, npair, nex = len(req.get("body", [])), len(req.get("pair", [])), len(req.get("exclude", []))
+    ncar = (len(req.get("joint", [])) + 5) // 6      # carrier bodies: at most 6 hinge dofs per body
     c = {k: len(v) for k, v in req.items()}
-    c["body"] = 1 + 2 + nb + 2 * npair + 2 * nex
-    c["geom"] = (2 + nb + 2 * npair + 2 * nex) + len(req.get("geom", []))
+    c["body"] = 1 + 2 + nb + 2 * npair + 2 * nex + ncar
+    c["geom"] = (2 + nb + 2 * npair + 2 * nex + ncar) + len(req.get("geom", []))
     c["joint"] = 2 + len(req.get("joint", []))
     c["site"] = 2 + len(req.get("site", []))
     return c
